@@ -387,6 +387,10 @@ func newEventFromTrustedJSONV1(eventJSON []byte, redacted bool, roomVersion IRoo
 	if err := json.Unmarshal(eventJSON, &res); err != nil {
 		return nil, err
 	}
+	if res == nil {
+		// the JSON text "null" unmarshals into a nil pointer
+		return nil, fmt.Errorf("gomatrixserverlib: event is not a JSON object")
+	}
 
 	if err := notOnlyTooManyBytes(checkID(res.eventFields.RoomID, "room", '!')); err != nil {
 		return nil, fmt.Errorf("RoomID is invalid: %w", err)
@@ -405,6 +409,10 @@ func newEventFromTrustedJSONWithEventIDV1(eventID string, eventJSON []byte, reda
 	res := &eventV1{}
 	if err := json.Unmarshal(eventJSON, &res); err != nil {
 		return nil, err
+	}
+	if res == nil {
+		// the JSON text "null" unmarshals into a nil pointer
+		return nil, fmt.Errorf("gomatrixserverlib: event is not a JSON object")
 	}
 
 	if err := notOnlyTooManyBytes(checkID(res.eventFields.RoomID, "room", '!')); err != nil {
